@@ -750,6 +750,8 @@ func genTSServerFile(r *gen.R, idx int) *ir.Request {
 				{Name: "big_num", Kind: gen.Pick(r, []string{"int64", "uint64", "sint64", "fixed64", "sfixed64"}), Ann: ir.Ann{Int64Enc: "NUMBER"}},
 				{Name: "flag_q", Kind: "bool"},
 				{Name: "shade_q", Kind: "enum", TypeName: P + "Color"},
+				{Name: "opt_limit", Kind: gen.Pick(r, []string{"int32", "uint32", "double", "sint32"}), Card: "optional"},
+				{Name: "opt_flag", Kind: "bool", Card: "optional"},
 			}
 			for _, fl := range forced {
 				fl.Name = uniq(used, fl.Name)
@@ -783,6 +785,10 @@ func genTSServerFile(r *gen.R, idx int) *ir.Request {
 				}
 				if strings.HasSuffix(k, "64") && r.P(1, 2) {
 					fl.Ann.Int64Enc = "NUMBER" // declared `number`: the query conversion must follow the annotation
+				}
+				if k != "enum" && r.P(1, 3) {
+					// proto3 `optional`: declared `name?: T`; a parameter that IS sent must still be converted to T
+					fl.Card = "optional"
 				}
 				in.Fields = append(in.Fields, fl)
 				no++
